@@ -7,7 +7,7 @@
    MDP with absorbing states masked; optimal_value_unique shows there is at most one. *)
 From Coq Require Import QArith Qreals Reals List Bool.
 From MSDM Require Import base.Num base.NumInst model.MDP model.VI theory.Bellman theory.VITheory
-     theory.VITransfer theory.VIMain theory.VIExample.
+     theory.VITransfer theory.VIUndisc theory.VIMain theory.VIExample.
 Local Open Scope R_scope.
 
 Theorem C01_values :
@@ -111,3 +111,52 @@ Theorem C01_nonvacuous :
   fixpoint (mR 3 2 exP exR exAv exAb exIni (1#2)%Q) (untab (map Q2R exVs)).
 Proof. exact (conj ex_check ex_fix). Qed.
 Print Assumptions C01_nonvacuous.
+
+(* ---------------- undiscounted case (gamma <= 1, rewards <= 0) ----------------
+   The optimal total reward is the limit of the decreasing value-iteration iterates T^k 0.
+   For a result accepted by the checker (plus the three undiscounted clauses, with a checked
+   expected-lossy-steps vector N of the reported policy) EVERY iterate is at least V - delta*N;
+   the iterates decrease; and each iterate dominates every non-positive sub-solution of the
+   optimality equation.  The mirror model's loops only ever return iterates (the check compares
+   the implementation's values with them).  Hence the limit lies in [V - delta*N, T^k 0]. *)
+Theorem C01_undiscounted_lower :
+  forall nS nA P Rw av ab ini g V Qv Pi iv tl N,
+  @c01_check Q NumQ (mk_mdp nS nA P Rw av ab ini g) (mk_out V Qv Pi iv) tl = all_true ->
+  @c01_undisc_check Q NumQ (mk_mdp nS nA P Rw av ab ini g) (mk_out V Qv Pi iv) N = (true :: true :: true :: nil) ->
+  forall B, 0 <= Q2R (epsb tl) -> 0 <= Q2R (qtol tl) -> 0 <= Q2R (atol_lo tl) -> 0 <= Q2R (rtol_lo tl) -> 0 <= B ->
+  (forall s mx, (s < nS)%nat -> maxQ (mR nS nA P Rw av ab ini g) (oR V Qv Pi iv) s = Some mx ->
+                band_hi (tR tl) mx <= B) ->
+  forall k s, (s < nS)%nat ->
+    Vz (mR nS nA P Rw av ab ini g) (oR V Qv Pi iv) s
+      - (Q2R (epsb tl) + B + 2 * Q2R (qtol tl)) * untab (map Q2R N) s
+    <= itT (mR nS nA P Rw av ab ini g) k s.
+Proof. exact main_undisc_lower. Qed.
+Print Assumptions C01_undiscounted_lower.
+
+Theorem C01_undiscounted_iterates_decrease :
+  forall nS nA P Rw av ab ini g V Qv Pi iv tl N,
+  @c01_check Q NumQ (mk_mdp nS nA P Rw av ab ini g) (mk_out V Qv Pi iv) tl = all_true ->
+  @c01_undisc_check Q NumQ (mk_mdp nS nA P Rw av ab ini g) (mk_out V Qv Pi iv) N = (true :: true :: true :: nil) ->
+  forall j k s, (k <= j)%nat -> (s < nS)%nat ->
+    itT (mR nS nA P Rw av ab ini g) j s <= itT (mR nS nA P Rw av ab ini g) k s.
+Proof. exact main_undisc_antitone. Qed.
+Print Assumptions C01_undiscounted_iterates_decrease.
+
+Theorem C01_undiscounted_upper :
+  forall nS nA P Rw av ab ini g V Qv Pi iv tl,
+  @c01_check Q NumQ (mk_mdp nS nA P Rw av ab ini g) (mk_out V Qv Pi iv) tl = all_true ->
+  forall U, (forall s, (s < nS)%nat -> U s <= 0) ->
+  (forall s, (s < nS)%nat -> U s <= Top (mR nS nA P Rw av ab ini g) U s) ->
+  forall k s, (s < nS)%nat -> U s <= itT (mR nS nA P Rw av ab ini g) k s.
+Proof. intros nS nA P Rw av ab ini g V Qv Pi iv tl H. exact (main_undisc_upper nS nA P Rw av ab ini g V Qv Pi iv tl H). Qed.
+Print Assumptions C01_undiscounted_upper.
+
+Theorem C01_mirror_returns_iterates :
+  forall (m : mdp R) mi eps,
+  (exists k, fst (vi_vec m mi eps) = vi_iter m k) /\ (exists k, fst (vi_dict m mi eps) = vi_iter m k) /\
+  (forall k s, (s < nS m)%nat -> untab (vi_iter m k) s = itT m k s).
+Proof.
+  intros m mi eps. split; [apply vi_vec_returns_iterate|]. split; [apply vi_dict_returns_iterate|].
+  intros k s Hs. apply vi_iter_itT; exact Hs.
+Qed.
+Print Assumptions C01_mirror_returns_iterates.
